@@ -4,21 +4,21 @@ sys.path.insert(0, os.path.join(os.path.dirname(os.path.abspath(__file__)), ".."
 sys.path.insert(0, os.path.dirname(os.path.abspath(__file__)))
 import harness
 from harness import Failure
-from chartcase import crash_signature
+from chartcase import crash_signature, crash_excerpt
 from worker import WorkerCrash, WorkerHang
 from hypothesis import strategies as st
 
 PROPERTY = "C09"
 LEVEL = "exploration"
 RULE = ("cases = a set of <= 8 delayed <send>s (delays 0-120 ms written as 'Nms', 'N.NNNs' or unit-less, ids, some equal delays) "
-        "issued from one onentry block, cancels by id either immediately in the same block or by an external event fed at a "
+        "issued from one onentry block (optionally several sends share one send id, as a re-armed watchdog does: a cancel then addresses all of them), cancels by id either immediately in the same block or by an external event fed at a "
         "generated time (before, around or after the due time), run on the real timer thread; engine large/fast. Oracle from "
         "monotonic timestamps taken in the monitor callbacks: every non-cancelled event is delivered exactly once and not "
         "before its delay elapsed (to within the timer granularity G; lateness is never an error); two events whose due times "
         "differ by more than 2G+4 ms are delivered in due order; an event whose cancel executed more than 2G+7 ms before its due time is never "
         "delivered; a racing cancel may go either way but never twice. Forced schedule: the timer thread is parked at the "
         "USCXML_VERIF point between releasing the queue lock and delivering the event while the interpreter thread executes "
-        "the <cancel> for that very event: no crash (use of the freed libevent event), no deadlock, at most one delivery. Second "
+        "the <cancel> for that very event, or at the entry of its callback before it takes the queue lock: no crash (use of the freed libevent event), no deadlock, at most one delivery. Second "
         "forced schedule: the timer thread is held inside a callback for 10-70 ms and a <send delay> is executed meanwhile - it must "
         "still wait its full delay (libevent computes deadlines from a cached clock while callbacks run). "
         "non-trivial = >= 3 timers with distinct due times and >= 1 cancel; distinct = hash of the timer/cancel set")
@@ -50,11 +50,16 @@ def render_delay(ms, syntax):
     return "%d" % ms
 
 
-def build_doc(timers, cancels):
+def sid(i, share):
+    """send id of timer i: with share = k > 0, timers i and j share an id iff i % k == j % k (a re-armed watchdog)"""
+    return "id%d" % (i % share if share else i)
+
+
+def build_doc(timers, cancels, share=0):
     """timers: [(delay_ms, syntax)], cancels: [(timer_index, when)] when = 'now' or an int (ms at which event c.<i> is fed)"""
-    sends = "".join('<send vid="send%d" event="t.%d" delay="%s" id="id%d"/>' % (i, i, render_delay(d, sx), i) for i, (d, sx) in enumerate(timers))
-    nows = "".join('<cancel vid="cnow%d" sendid="id%d"/>' % (i, i) for i, w in cancels if w == 'now')
-    trans = "".join('<transition event="c.%d"><cancel vid="cancel%d" sendid="id%d"/></transition>' % (i, i, i) for i, w in cancels if w != 'now')
+    sends = "".join('<send vid="send%d" event="t.%d" delay="%s" id="%s"/>' % (i, i, render_delay(d, sx), sid(i, share)) for i, (d, sx) in enumerate(timers))
+    nows = "".join('<cancel vid="cnow%d" sendid="%s"/>' % (i, sid(i, share)) for i, w in cancels if w == 'now')
+    trans = "".join('<transition event="c.%d"><cancel vid="cancel%d" sendid="%s"/></transition>' % (i, i, sid(i, share)) for i, w in cancels if w != 'now')
     return ('<scxml xmlns="http://www.w3.org/2005/07/scxml" version="1.0" datamodel="null" name="d"><state id="s0" vid="s0">'
             '<onentry>%s%s</onentry><transition event="t" vid="tt"><log vid="lg" label="T" expr="1"/></transition>%s</state></scxml>' % (sends, nows, trans))
 
@@ -63,7 +68,7 @@ def call(ctx, *args):
     try:
         return ctx.worker().call(*args, timeout=30)
     except WorkerCrash as e:
-        raise Failure("crash", {"stderr": e.stderr[-3000:], "signature": crash_signature(e.stderr)})
+        raise Failure("crash", {"stderr": crash_excerpt(e.stderr), "signature": crash_signature(e.stderr)})
     except WorkerHang:
         raise Failure("deadlock-or-hang", {"signature": "hang"})
 
@@ -81,11 +86,11 @@ def analyse(tr, timers, cancels, forced=None):
     return sent_at, cancel_at, delivered
 
 
-def check_case(ctx, timers, cancels, engine):
-    # one cancel per timer at most
+def check_case(ctx, timers, cancels, engine, share=0):
+    # one cancel per send id at most
     seen = set()
-    cancels = [c for c in cancels if c[0] < len(timers) and not (c[0] in seen or seen.add(c[0]))]
-    xml = build_doc(timers, cancels)
+    cancels = [c for c in cancels if c[0] < len(timers) and not (sid(c[0], share) in seen or seen.add(sid(c[0], share)))]
+    xml = build_doc(timers, cancels, share)
     script = "\n".join("%d recv c.%d" % (w, i) for i, w in cancels if w != 'now')
     until = max([d for d, _ in timers] + [w for _, w in cancels if w != 'now'] + [0]) + 200
     r = call(ctx, "timed", xml, engine, script, "until=%d" % until)
@@ -94,6 +99,14 @@ def check_case(ctx, timers, cancels, engine):
     tr = r["trace"]
     sent_at, cancel_at, delivered = analyse(tr, timers, cancels)
     cancelled = dict(cancels)
+    if share:
+        # a <cancel> addresses every pending event sent with that id
+        for i in range(len(timers)):
+            for c, w in cancels:
+                if i != c and sid(i, share) == sid(c, share):
+                    cancelled[i] = w
+                    if c in cancel_at:
+                        cancel_at.setdefault(i, cancel_at[c])
 
     def bad(kind, **kw):
         raise Failure(kind, dict(kw, timers=timers, cancels=cancels, signature=kind))
@@ -131,18 +144,21 @@ def check_case(ctx, timers, cancels, engine):
             labels.add('cancel-before-due' if w < d - 10 else ('cancel-after-due' if w > d + 10 else 'cancel-around-due'))
     for _, sx in timers:
         labels.add('delay-syntax-' + sx)
-    ctx.count(harness.h64(json.dumps([timers, cancels, engine])), distinct_due >= 3 and len(cancels) >= 1, labels,
+    if share:
+        labels.add('shared-send-id')
+    ctx.count(harness.h64(json.dumps([timers, cancels, engine, share])), distinct_due >= 3 and len(cancels) >= 1, labels,
               sample={"timers_ms": timers, "cancels": cancels, "engine": engine,
                       "delivered_ms_after_send": {str(i): round((delivered[i][0] - sent_at[i]) / 1000.0, 1) for i in delivered if delivered[i]}})
 
 
-def check_forced(ctx, timers, engine):
-    """the cancel for the first-due timer is executed while the timer thread sits in the delivery window"""
+def check_forced(ctx, timers, engine, point="dq.timer.window"):
+    """the cancel for the first-due timer is executed while the timer thread sits in the delivery window (after it released
+    the queue lock) or at the very entry of its callback (before it takes the lock)"""
     first = min(range(len(timers)), key=lambda i: (timers[i][0], i))
     cancels = [(first, 10 ** 6)]
     xml = build_doc(timers, cancels)
     until = max(d for d, _ in timers) + 500
-    r = call(ctx, "timed", xml, engine, "", "until=%d park=dq.timer.window parkms=250 arm=1 onpark=c.%d" % (until, first))
+    r = call(ctx, "timed", xml, engine, "", "until=%d park=%s parkms=250 arm=1 onpark=c.%d" % (until, point, first))
     if r.get("exception"):
         raise Failure("exception", {"exception": r["exception"][:300], "signature": "exception"})
     tr = r["trace"]
@@ -153,7 +169,7 @@ def check_forced(ctx, timers, engine):
         if i != first and len(delivered.get(i, [])) != 1:
             raise Failure("not-delivered", {"timer": i, "timers": timers, "forced": True, "signature": "not-delivered-forced"})
     in_window = r.get("park_count", 0) >= 1 and any(e[0] == 'fed-on-park' for e in tr)
-    ctx.count(harness.h64("forced", json.dumps([timers, engine])), in_window, ['forced-window', 'cancel-in-window' if in_window else 'window-missed'],
+    ctx.count(harness.h64("forced", point, json.dumps([timers, engine])), in_window, ['forced-' + point, 'cancel-in-window' if in_window else 'window-missed'],
               sample={"timers_ms": timers, "engine": engine, "cancelled_in_window": first, "delivered": sorted(delivered)})
 
 
@@ -193,10 +209,12 @@ def shard_main(ctx):
     p = ctx.params
     if ctx.shard == 0:
         ctx.replay_corpus(sys.modules[__name__])
-    ctx.run_hypothesis([timers_s, cancels_s, st.sampled_from(['large', 'fast'])], lambda t, c, e: check_case(ctx, t, c, e),
-                       p["cases"] // ctx.nshards + 1, lambda t, c, e: {"timers": t, "cancels": c, "engine": e})
-    ctx.run_hypothesis([timers_s, st.sampled_from(['large', 'fast'])], lambda t, e: check_forced(ctx, t, e),
-                       p["forced"] // ctx.nshards + 1, lambda t, e: {"timers": t, "forced": True, "engine": e}, name="forced")
+    share_s = st.sampled_from([0, 0, 0, 1, 2, 3])
+    ctx.run_hypothesis([timers_s, cancels_s, st.sampled_from(['large', 'fast']), share_s], lambda t, c, e, sh: check_case(ctx, t, c, e, sh),
+                       p["cases"] // ctx.nshards + 1, lambda t, c, e, sh: {"timers": t, "cancels": c, "engine": e, "share": sh})
+    ctx.run_hypothesis([timers_s, st.sampled_from(['large', 'fast']), st.sampled_from(["dq.timer.window", "dq.timer.entry"])],
+                       lambda t, e, pt: check_forced(ctx, t, e, pt), p["forced"] // ctx.nshards + 1,
+                       lambda t, e, pt: {"timers": t, "forced": True, "engine": e, "point": pt}, name="forced")
     ctx.run_hypothesis([st.sampled_from([30, 60, 100, 150]), st.sampled_from([10, 20, 40, 70]), st.sampled_from(['ms', 's', 'none']), st.sampled_from(['large', 'fast'])],
                        lambda d, h, sx, e: check_busy_timer_thread(ctx, d, h, sx, e), p["busy"] // ctx.nshards + 1,
                        lambda d, h, sx, e: {"busy": [d, h, sx, e]}, name="busy")
@@ -209,9 +227,9 @@ def replay(ctx, case):
             return []
         timers = [tuple(x) for x in case["timers"]]
         if case.get("forced"):
-            check_forced(ctx, timers, case["engine"])
+            check_forced(ctx, timers, case["engine"], case.get("point", "dq.timer.window"))
         else:
-            check_case(ctx, timers, [tuple(x) for x in case["cancels"]], case["engine"])
+            check_case(ctx, timers, [tuple(x) for x in case["cancels"]], case["engine"], case.get("share", 0))
     except Failure as f:
         return [{"kind": f.kind, "detail": f.detail}]
     return []
